@@ -9,7 +9,8 @@ EXPLANATION = (
     "tree has a dynamic_cast branch in exec, every concrete expression class one in eval and in the parser's expression cloner (a node "
     "kind without a branch silently evaluates to nothing); (R07.2) return unwinding — every loop that executes statements tests the "
     "return flag after each statement and leaves on it, and every activation (function, method, constructor body, destructor) saves the "
-    "flag, clears it before running the body and restores it on all normal paths; (R07.4) every subscript of a value array by a "
+    "flag, clears it before running the body and restores it on all normal paths; (R07.3) every scope opened by the statement/call "
+    "machinery is closed on every normal path; (R07.4) every subscript of a value array by a "
     "computed index is dominated by the `i < 0 || i >= size` test on the same container (or is the induction variable of a loop bounded "
     "by that container's size), and `/`/`%` are dominated by their zero tests; (R07.5) `/` yields the Float tag on every path; (R07.6) in the binary-operator cascade an "
     "operation on the double-converted operands is reached only under the has-a-float-operand guard (or in `/`), an operation on the "
@@ -113,6 +114,21 @@ def run(prog, chk):
             chk.ob('R07.2', f, f.ln, ok_save and ok_clear and ok_rest,
                    '%s: return flag saved (%s), cleared before the body (%s), restored on every normal path (%s)' % (f.short, ok_save, ok_clear, ok_rest), key='activation:' + f.short)
     chk.count('statement-executing loops', nloops, 6)
+    # ---- R07.3 block/for/call scopes are closed on every normal path (a `return` that jumps past endScope leaves the callee's
+    # scope on the stack: the caller then reads the dead callee's same-named variables) ----------------------------------
+    chk.rule('R07.3', 'every scope opened while executing a statement or a call is closed on every normal path of the same function')
+    nb = 0
+    for f in [x for x in R.ev_methods() if x.body]:
+        if not any(n['k'] == 'mcall' and SX.short(n['callee']) == 'beginScope' for n in SX.walk(f.body, into_lambdas=False)):
+            continue
+        g = prog.cfg(f)
+        begins = [c for c in g.calls(lambda e: e['k'] == 'mcall' and e['callee'] == R.ev['name'] + '::beginScope')]
+        ends = [c for c in g.calls(lambda e: e['k'] == 'mcall' and e['callee'] == R.ev['name'] + '::endScope')]
+        for i, b in enumerate(begins):
+            nb += 1
+            chk.ob('R07.3', f, b.ln, bool(ends) and g.must_follow(b, ends), 'the scope opened in %s is closed on every normal path (including a `return` taken inside a loop body)' % f.short,
+                   key='scope:%s#%d' % (f.short, i))
+    chk.count('scope openings', nb, 7)
     chk.count('activation functions', nact, 4)
 
     # ---- R07.4 subscripts ------------------------------------------------------------------------
